@@ -49,7 +49,12 @@ def ops : List (String × Op) := [
       let l ← pRawLoc; let rs ← pInt; let re ← pInt; let st ← pStrand; pArrow; let a ← pAns pOutLoc
       match specBuild l with
       | none => pure (verdict a.isNone)
-      | some x => pure (verdict (okRelint x rs re st a)))
+      | some x => pure (verdict (okRelint x rs re st a))),
+  ("locrel", do
+      let a ← pRawLoc; let b ← pRawLoc; let opt ← pBool; pArrow; let r ← pAns pOutLoc
+      match specBuild a, specBuild b with
+      | some x, some y => pure (verdict (okLocRel x y opt r))
+      | _, _ => pure (verdict r.isNone))
 ]
 
 end BioCantor.Driver.SpecLoc
